@@ -61,6 +61,21 @@ def logOnce (c : Core) : Outcome :=
   let errs := (sinks.filter (·.writeErr)).map (·.id)
   ⟨sinks.map (·.id), errs, if errs.isEmpty then 0 else 1⟩
 
+/-- what `CheckedEntry.Write` does, in order, for a checked entry whose cores are `accepted c`: every sink under every
+    accepting core is written (errors are only collected), then ONE line on the ErrorOutput if any write failed, then
+    — unconditionally — the terminal hook (`ce.after`: panic / exit / custom) when one was set by `Logger.check` -/
+inductive DEv where
+  | wrote (sink : Nat)
+  | errLine
+  | term
+deriving DecidableEq, Repr
+
+def ceWrite (c : Core) (after : Bool) : List DEv :=
+  let sinks := (accepted c).flatMap sinksOf
+  sinks.map (fun s => DEv.wrote s.id)
+    ++ (if (sinks.filter (·.writeErr)).isEmpty then [] else [DEv.errLine])
+    ++ (if after then [DEv.term] else [])
+
 /-! ### zap.Stringers -/
 
 /-- elements appended before the first element whose `String()` panics with a non-nil receiver, and the error
